@@ -42,8 +42,8 @@ ATTACKS = [  # (cfg, what the weakened mechanism lacks)
 
 def _tier(tier):
     if tier == "quick":
-        return dict(mc="Registry_quick.cfg", mc_stop=150, cover="Registry_cover_quick.cfg", leaves=260, edges=60,
-                    sim=("Registry_sim.cfg", 160, 16), record_runs=60)
+        return dict(mc="Registry_quick.cfg", mc_stop=150, cover="Registry_cover_quick.cfg", leaves=400, edges=100,
+                    sim=("Registry_sim.cfg", 220, 16), record_runs=80)
     return dict(mc="Registry_thorough.cfg", mc_stop=1500, cover="Registry_cover.cfg", leaves=6000, edges=2500,
                 sim=("Registry_sim.cfg", 5000, 18), record_runs=3000)
 
